@@ -49,6 +49,18 @@ def gen_case(rng, per):
                     late.append(["derive_unit", pname, f"{cur},{xu}", "-"])   # declared later
                 else:
                     ops.append(["derive_unit", pname, f"{cur},{xu}", "-"])
+    # a money type of the second level: (money per X) per length
+    first = [o for o in ops if o[0] == "decl_class"]
+    if first and first[0][1] != "PricePerLength" and rng.random() < .6:
+        pname = first[0][1]
+        pname2 = pname + "PerLength"
+        ops.append(["decl_class", pname2, f"c:{pname}^1;c:Length^-1", "-", "0", "-"])
+        for o in [o for o in ops if o[0] == "derive_unit" and o[1] == pname]:
+            cur, xu = o[2].split(",")
+            for lu in rng.sample(["m", "km"], rng.randint(1, 2)):
+                sym2 = f"{cur}/{xu}*{lu}"
+                ops.append(["derive_unit", pname2, f"{cur}/{xu},{lu}", sym2])
+                price_units[sym2] = (pname2, cur, f"{xu}*{lu}")
     rates = {}
     for i in range(6):
         a, b = rng.sample(CODES, 2)
@@ -79,6 +91,19 @@ def gen_case(rng, per):
             ops.append(["money_rate", rng.choice(["mul", "rmul", "div"]), f"{amt}@{sym}", rn, mode])
         else:
             ops.append(["money_rate", rng.choice(["mul", "div"]), f"{amt}@{rng.choice(['kg', 'm', 's'])}", rn, mode])
+    # targeted: the counterpart of the price unit exists in the other currency
+    # at ANOTHER scale only (EUR/g with HKD/kg): the look-up factor matters
+    extra = []
+    for rn, (a, b) in rates.items():
+        for sym, (pcls, cur, xu) in price_units.items():
+            for op, src, dst in (("mul", a, b), ("rmul", a, b), ("div", b, a)):
+                if cur != src or f"{dst}/{xu}" in price_units:
+                    continue
+                if any(v[0] == pcls and v[1] == dst for v in price_units.values()):
+                    amt = rat(Fraction(rng.randint(1, 10 ** 5), rng.choice([1, 100, 8])))
+                    extra.append(["money_rate", op, f"{amt}@{sym}", rn, rng.choice(MODES)])
+    rng.shuffle(extra)
+    ops.extend(extra[:12])
     return {"ops": ops, "fork": True, "nsetup": nsetup,
             "price_units": {k: list(v) for k, v in price_units.items()}, "tags": ["rates-applied"]}
 
@@ -95,6 +120,9 @@ def search_cases(rng, focus, broken):
 def oracle(case, impl):
     import siref
     scale = {sy: k for _, sy, k in siref.table()}
+    for xu in {v[2] for v in case["price_units"].values() if "*" in v[2]}:
+        a, b = xu.split("*")
+        scale[xu] = scale[a] * scale[b]
     fails = []
     rates = {}
     declared = {}
@@ -148,7 +176,10 @@ def oracle(case, impl):
             got = _qty.parse_qty_out(out)
             exact_declared = f"{dst}/{xu}" in declared
             if got is None:
-                if out == "err QuantityError" and not exact_declared:
+                # D2: a target that exists at another scale only is found iff it is
+                # defined without a numeric factor (its X-unit is the coherent one)
+                coherent = any(scale[declared[t][2]] == 1 for t in targets)
+                if out == "err QuantityError" and not exact_declared and not coherent:
                     continue          # only a differently scaled target exists (see DESIGN D2)
                 fails.append({"site": "apply:price-rejected", "msg": f"{what} -> {out}"})
                 continue
